@@ -1,14 +1,15 @@
 (* C14 -- IDL built-in replacements: smooth, median, uniq, rebin.
    Executable definitions ONLY (no proofs).
      M  = algorithmic models, transliterations of pydl/{smooth,median,uniq,rebin}.py
-          (smooth's index arithmetic comes from Generated/Smooth.v, regenerated from the source);
+          (smooth's index arithmetic and rebin's shape tests / branch selectors / shrink arithmetic come
+          from Generated/Smooth.v and Generated/Rebin.v, regenerated from the source);
      S  = specification models written from the IDL rules (never mention M or Generated);
      case / run_case for the correspondence run.
    Numbers: float arrays are lists of exact rationals Q (the harness passes the doubles exactly),
    integer arrays are lists of Z (or of integral Q for rebin). *)
 From Coq Require Import ZArith QArith Qround Qabs List Bool.
 Import ListNotations.
-From PV Require Import Generated.Smooth.
+From PV Require Import Generated.Smooth Generated.Rebin.
 Open Scope Z_scope.
 
 (* ------------------------------------------------------------------ common *)
@@ -275,11 +276,12 @@ Section RebinAxis.
   Definition getT (xs : list T) (j : Z) : T := if j <? 0 then dfl o else nth (Z.to_nat j) xs (dfl o).
 
   (* M: one pass of the `for k` loop of rebin() along the leading axis of xs, new extent d.
+     Branch selectors and the shrinking branch's integer expressions are GENERATED (Generated/Rebin.v).
      p = f*i with f = d0/d is computed exactly here (the Python computes it in doubles); the
      fraction p - fp is put in lowest terms (Qred) so that M and S agree syntactically. *)
   Definition rebin_axis (sample : bool) (xs : list T) (d : Z) : list T :=
     let d0 := lenZ xs in
-    if d0 <? d then
+    if rebin_is_expand d0 d then
       let f := (inject_Z d0 / inject_Z d)%Q in
       map (fun t => let i := Z.of_nat t in
                     let p := (f * inject_Z i)%Q in
@@ -288,12 +290,12 @@ Section RebinAxis.
                     else if Qlt_bool p (inject_Z (d0 - 1)) then lin o (Qred (p - inject_Z fp)) (getT xs fp) (getT xs (fp + 1))
                          else getT xs fp)
           (seq 0 (Z.to_nat d))
-    else if d0 =? d then xs
+    else if rebin_is_keep d0 d then xs
     else
-      let f := d0 / d in
+      let f := rebin_shrink_f d0 d in
       map (fun t => let i := Z.of_nat t in
-                    if sample then getT xs (f * i)
-                    else avg o (pyslice xs (f * i) (f * (i + 1))) f)
+                    if sample then getT xs (rebin_shrink_pick f i)
+                    else avg o (pyslice xs (rebin_shrink_lo f i) (rebin_shrink_hi f i)) f)
           (seq 0 (Z.to_nat d)).
 
   (* S: IDL REBIN along one axis, integer subscript arithmetic only *)
@@ -317,14 +319,19 @@ Section RebinAxis.
 End RebinAxis.
 Arguments rebin_axis {T}. Arguments rebin_axis_spec {T}. Arguments getT {T}.
 
-(* the shape test at the top of rebin(): same rank, and on every axis the larger extent is a
-   multiple of the smaller one.  (extents are >= 1 here) *)
+(* S: the shape test of rebin(): same rank, and on every axis the larger extent is a multiple of the
+   smaller one.  (extents are >= 1 here) *)
 Fixpoint dims_ok (d0 d : list Z) : bool :=
   match d0, d with
   | [], [] => true
   | a :: r0, b :: r => (if a <? b then b mod a =? 0 else if a =? b then true else a mod b =? 0) && dims_ok r0 r
   | _, _ => false
   end.
+(* M: the two GENERATED tests of rebin(): `len(d0) != len(d)` and the per-axis loop of `%` tests
+   (zip stops at the shorter list, as the loop is only reached with equal ranks) *)
+Definition dims_ok_gen (d0 d : list Z) : bool :=
+  negb (rebin_rank_rejects (lenZ d0) (lenZ d))
+  && forallb (fun p => negb (rebin_axis_rejects (fst p) (snd p))) (combine d0 d).
 
 Inductive rres :=
 | R1 (l : list Q) | R2 (l : list (list Q)) | R3 (l : list (list (list Q))) | RValueError | ROther.
@@ -336,6 +343,7 @@ Definition shape3 (x : list (list (list Q))) : list Z :=
 
 Section RebinND.
   Variable ax : forall T, ops T -> bool -> list T -> Z -> list T.   (* rebin_axis or rebin_axis_spec *)
+  Variable dims_ok : list Z -> list Z -> bool.                      (* dims_ok_gen or dims_ok *)
   Variable k : dkind.
   Variable sample : bool.
   Definition rebin1_with (x : list Q) (d : list Z) : rres :=
@@ -361,13 +369,13 @@ Section RebinND.
 End RebinND.
 
 (* M *)
-Definition rebin1 := rebin1_with (@rebin_axis).
-Definition rebin2 := rebin2_with (@rebin_axis).
-Definition rebin3 := rebin3_with (@rebin_axis).
+Definition rebin1 := rebin1_with (@rebin_axis) dims_ok_gen.
+Definition rebin2 := rebin2_with (@rebin_axis) dims_ok_gen.
+Definition rebin3 := rebin3_with (@rebin_axis) dims_ok_gen.
 (* S *)
-Definition rebin1_spec := rebin1_with (@rebin_axis_spec).
-Definition rebin2_spec := rebin2_with (@rebin_axis_spec).
-Definition rebin3_spec := rebin3_with (@rebin_axis_spec).
+Definition rebin1_spec := rebin1_with (@rebin_axis_spec) dims_ok.
+Definition rebin2_spec := rebin2_with (@rebin_axis_spec) dims_ok.
+Definition rebin3_spec := rebin3_with (@rebin_axis_spec) dims_ok.
 
 Definition eqb_rres (tol : Q) (a b : rres) : bool :=
   match a, b with
